@@ -97,7 +97,8 @@ def r1(ctx):
         probs.append('no common scalar test for x and y')
     else:
         want_c = Cmp('==', App('attr:shape', (wantx,)), Tup(()))
-        if not same(cx, want_c):
+        want_c2 = Cmp('==', App('attr:ndim', (wantx,)), sp.Integer(0))      # the same test: no dimensions
+        if not (same(cx, want_c) or same(cx, want_c2)):
             probs.append(f'scalar test is {show(cx, 120)}, not `broadcast shape == ()`')
         if not ('attr:item' in show(sx) and same_root(sx, wantx) and 'attr:item' in show(sy) and same_root(sy, wanty)):
             probs.append(f'scalar branch stores x={show(sx, 100)}, y={show(sy, 100)}; expected x.item(), y.item()')
@@ -209,6 +210,16 @@ def r6(ctx):
         kws = {k.arg: k.value for k in ret[0].value.keywords}
         xs = a[0] if a else kws.get('x')
         ys = a[1] if len(a) > 1 else kws.get('y')
+
+        def local(e):
+            # a local bound once (x_copy = copy.deepcopy(self.x)) stands for its value
+            if isinstance(e, ast.Name):
+                vs = [st.value for st in ast.walk(f.node) if isinstance(st, ast.Assign) and len(st.targets) == 1
+                      and isinstance(st.targets[0], ast.Name) and st.targets[0].id == e.id]
+                if len(vs) == 1:
+                    return vs[0]
+            return e
+        xs, ys = local(xs), local(ys)
         def deep(e, attr):
             return isinstance(e, ast.Call) and (call_name(e) or '').split('.')[-1] == 'deepcopy' and \
                 norm(e.args[0]) == f'self.{attr}'
